@@ -11,6 +11,7 @@ desc = {
        cluster:  ns_add name | ns_del name | crd_add resdef | crd_del plural [group]
        operator: start inc | stop inc | kill inc | cancel inc
        server:   compact | break how | bookmark
+       auth:     revoke inc      (the operator's current token is revoked; needs a 'login' handler to recover)
        peers:    peer identity priority lifetime | unpeer identity     (a foreign operator's record in the peering object; needs 'peering')
   'peering': {'name': 'default'}            # cluster-wide peering object; operators are then NOT standalone
   'faults': [{'client': inc|None, 'match': {'kind': 'patch', ...}, 'nth': k|[k..]|None, 'window': [t1, t2]|None, 'actions': [[kind, {...}], ...]}]
@@ -242,6 +243,11 @@ def run_world(desc: dict[str, Any], *, scoped: bool = True, capture_logs: bool =
             kube.edit('clusterkopfpeerings', None, peering.get('name', 'default'), {'status': {op[1]: rec}})
         elif kind == 'unpeer':
             kube.edit('clusterkopfpeerings', None, peering.get('name', 'default'), {'status': {op[1]: None}})
+        elif kind == 'revoke':
+            # the current credentials of an operator stop being valid
+            c = kube.clients.get(op[1])
+            if c is not None and c.token is not None:
+                kube.revoke(c.token)
         elif kind == 'compact':
             kube.compact(plural)
         elif kind == 'break':
